@@ -593,6 +593,12 @@ def run_real_match(G, t: Tree, cands: list[str], pats, flags: int, exclude=None,
         elif mode == 'dir_fd':
             fd = _real_open(t.root, os.O_RDONLY | os.O_DIRECTORY)
             kw['dir_fd'] = fd
+        elif mode == 'fd+root':
+            # a descriptor on the PARENT together with a root_dir relative to it (seeded change C04j: the link test of `_fs_match` forgot
+            # root_dir when a descriptor was given)
+            fd = _real_open(os.path.dirname(t.root), os.O_RDONLY | os.O_DIRECTORY)
+            kw['dir_fd'] = fd
+            kw['root_dir'] = os.path.basename(t.root)
         if exclude is not None:
             kw['exclude'] = exclude
         try:
